@@ -573,8 +573,9 @@ def dict_key_eq(ex, a, b):
 def dict_find(ex, ho, k):
     """key of the concrete-spine dict equal to k (case split), or _MISSING"""
     k = plain(k)
-    if ex.is_hashable_conc(k):
-        sym_keys = [x for x in ho.items if not ex.is_hashable_conc(x)]
+    if ex.is_hashable_conc(k) and not isinstance(k, SymKey):
+        # (a SymKey wraps a symbolic int: it is never decided by python hashing, except for the very same key)
+        sym_keys = [x for x in ho.items if isinstance(x, SymKey) or not ex.is_hashable_conc(x)]
         if not sym_keys:
             return k if k in ho.items else _MISSING
     # symbolic key or symbolic keys present: case split over entries
